@@ -11,6 +11,12 @@ CHECKS = {
    text="Exhaustive, within a stated finite domain, comparison of the real classifier/gateway/name functions with a TLA+ relation written over byte tuples (CIDR membership, cls_u32 match semantics, third-from-last address). Right level because the property is a pure input/output relation; the quantifier 'all addresses' is reduced to all prefix lengths x boundary probes.",
    design_ref="DESIGN.md 2.6, 5 (C14)",
    note="Trusts: the harness projection of netlink keys to byte tuples; TLC's evaluation of the relation; finite domain (5 v4 / 3 v6 bases, boundary bit flips) instead of all 2^32/2^128 addresses."),
+ "C16": dict(
+   technique="TLA+ spec Token.tla model-checked by TLC; TLC-simulated + random + free-running scenarios driven through the real OpenAPI methods with a fake HTTP transport; recorded traces validated by TLC (Token_trace.tla)",
+   category="model_checking",
+   text="Token.tla states the token discipline (retry reuses a failed attempt's token, fresh otherwise, in-flight tokens distinct, no sharing across parameter sets) and is checked exhaustively for 2-3 concurrent callers. The real client code (option builders, key generator, every create/assign call site incl. rollback) is bound by trace validation: each recorded execution must be a behaviour of the spec with the token choice as a silent step.",
+   design_ref="DESIGN.md 4.5, 5 (C16)",
+   note="Trusts: the fake http.RoundTripper as the cloud; uuid renumbering; LRU capacity forced to 2; backoff Steps=1 (one request per call)."),
 }
 
 NA_REASON = "not built yet in this round of work; see DESIGN.md section 10 (build order) - the property is planned to be decided by the TLA+ pipeline"
